@@ -134,8 +134,10 @@ class Ctx:
         calls = M.backend_calls
         if not calls:
             elsewhere = [f for f in reachable_funcs(self.repo, [self.draw], byname=False) if any(self._backend_in(f, c) for c in own_nodes(f.node) if isinstance(c, ast.Call))]
-            if elsewhere:
-                self.unsure("C17.R5", "hand-off", f"networkx.draw_networkx is called in {elsewhere[0].qualname}, which could not be flattened into draw")
+            from .c17_rules import opaque_calls
+
+            if elsewhere or opaque_calls(self):
+                self.unsure("C17.R5", "hand-off", f"networkx.draw_networkx is called in {elsewhere[0].qualname}, which could not be flattened into draw" if elsewhere else "no call of networkx.draw_networkx in the flattened draw(), but calls that could not be followed")
             else:
                 self.bad("C17.R5", "hand-off", "the drawing backend networkx.draw_networkx is not called on the way from draw()")
             return
@@ -147,13 +149,16 @@ class Ctx:
         named = [k for k in call.keywords if k.arg is not None]
         cfg = cfg_of(M.V)
         problems = []
-        if len(call.args) != 1 or not self._is_graph(M.resolve(call.args[0])):
-            problems.append(f"the first argument `{norm(call.args[0], 40) if call.args else ''}` is not the wrapped networkx graph")
         unsure_fw = None
+        garg = M.resolve(call.args[0]) if len(call.args) == 1 else None
+        if garg is None:
+            unsure_fw = "draw_networkx is not called with the graph as its only positional argument"
+        elif not self._is_graph(garg) and not (isinstance(garg, ast.Attribute) and isinstance(garg.value, ast.Name) and garg.value.id == M.selfname):
+            unsure_fw = f"the first argument `{norm(call.args[0], 40)}` is not recognised as the wrapped networkx graph"
         if not star:
             problems.append("the caller's options are not forwarded (no **kwargs in the backend call)")
         elif len(star) != 1 or not M.is_options(star[0].value):
-            unsure_fw = f"`**{norm(star[0].value, 40)}` is not recognised as the caller's options"
+            unsure_fw = unsure_fw or f"`**{norm(star[0].value, 40)}` is not recognised as the caller's options"
         forced = [k.arg for k in named if k.arg not in ("labels", "pos")]
         if forced:
             problems.append(f"options {forced} are fixed by draw() itself")
